@@ -6,16 +6,16 @@ package criteria_concealment
 // Contracts for gocv (comment-only; compiled out unless the tag "verif" is set, and empty then).
 
 //@ func parseProps
-//@   property C18 C20
+//@   property C18 C20 C09 C01
 //@   ensures [scaling_nonzero] result.NewCriterionScaling != 0.0
 
 //@ func getCriterionValueRange
-//@   property C18 C07
+//@   property C18 C07 C09 C01
 //@   ensures [scaled_reference_range] fresh(result) && (referenceCriterion.ValuesRange != nil ==>
 //@             result.Min == utils.scaledMin(*referenceCriterion.ValuesRange, scaling) && result.Max == utils.scaledMax(*referenceCriterion.ValuesRange, scaling))
 
 //@ func (*CriteriaConcealment).generateNewCriterionBase
-//@   property C18 C07
+//@   property C18 C07 C09 C01
 //@   requires model.distinctCriteria(originalParams.Criteria) && len(originalParams.Criteria) > 0
 //@   requires model.validParams(*listener, originalParams.MethodParameters) && model.coversAll(*listener, originalParams.MethodParameters, originalParams.Criteria)
 //@   ensures [gain] result.newCriterion != nil && result.newCriterion.Type == model.Gain && result.newCriterion.ValuesRange != nil
@@ -25,20 +25,20 @@ package criteria_concealment
 
 // the value generator closure: bounded next value of the in-range generator, recorded in the report under the alternative's id
 //@ func assignNewCriterionToAlternatives$1
-//@   property C18 C07
+//@   property C18 C07 C09 C01
 //@   assigns alternativesValues
 //@   ensures [bounded_draw] result == criteria_bounding.boundedIn(*boundingInRange, draw(generator, old(calls(generator))))
 //@   ensures [reported] a.Id in alternativesValues && alternativesValues[a.Id] == result
 
 //@ func assignNewCriterionToAlternatives
-//@   property C18 C07
+//@   property C18 C07 C09 C01
 //@   requires newCriterion.ValuesRange != nil
 //@   ensures [shape] fresh(result0) && fresh(*result0) && len(*result0) == len(resParams.ConsideredAlternatives) + len(resParams.NotConsideredAlternatives)
 //@   ensures [extended_members] forall k int :: 0 <= k && k < len(*result0) ==> exists j int :: 0 <= j && j < len(*result0)
 //@             && model.extendedBy((*result0)[k], model.altAt(resParams.ConsideredAlternatives, resParams.NotConsideredAlternatives, j), newCriterion.Id)
 
 //@ func generateCriterionValuesForAlternatives
-//@   property C18 C07
+//@   property C18 C07 C09 C01
 //@   requires newCriterion.ValuesRange != nil
 //@   requires forall i int, j int :: 0 <= i && i < j && j < len(resParams.ConsideredAlternatives) ==> resParams.ConsideredAlternatives[i].Id != resParams.ConsideredAlternatives[j].Id
 //@   requires forall i int, j int :: 0 <= i && i < j && j < len(resParams.NotConsideredAlternatives) ==> resParams.NotConsideredAlternatives[i].Id != resParams.NotConsideredAlternatives[j].Id
